@@ -562,6 +562,12 @@ def one_config(ctx, p, mode, scripts, rnd, tag, race, cov):
     if cov["mech"].get("group_mismatch"):
         raise vlib.Inconclusive("StreamerResponse.Group differs from the writer's control group (pinned beyond the property)")
     stats, rejected = validate(ctx, p, mode, items, tag)
+    if not rejected:
+        for scn, evs in items:
+            cls, text = classify(p, mode, evs, len(evs) - 1)
+            if cls:
+                raise vlib.Inconclusive("oracle disagreement: RelayTrace accepted a trace in which %s (%s/%s scenario %d)" % (
+                    text, p["name"], mode, scn["i"]))
     cov["tv_states"] += stats["distinct"]
     cov["tv_transitions"] += stats["generated"]
     cov["accepted"] += stats["accepted"]
@@ -601,13 +607,13 @@ def handle_rejections(ctx, p, mode, rejected, race):
         # reproduce: same script from scratch, several times (a racy defect needs the schedule again)
         res = rerun(ctx, p, mode, scn, NREP, "repro", race)
         items = [(scn, r["events"]) for r in res.values() if r["status"] == "ok"]
-        hits = 0
-        for k, it in enumerate(items):
+        # the statement-level oracle alone decides most classes from the log; TLC only where it does not
+        hits = sum(1 for it in items if classify(p, mode, it[1], len(it[1]) - 1)[0] == cls)
+        for k, it in enumerate(items if not hits else []):
             st, bad = tlc_trace(ctx, p, mode, [it], "repro_%d" % k, timeout=1800)
             if bad and classify(p, mode, it[1], bad[1])[0] == cls:
                 hits += 1
-                if hits >= 2:
-                    break
+                break
         if not hits:
             ctx.notes.append("%s (%s/%s) did not reproduce in %d re-executions: %s" % (cls, p["name"], mode, NREP, text))
             continue
